@@ -337,6 +337,32 @@ def one(ctx, c, setname, a, transports, do_transports, rng):
                                      {"cmd": c.name, "args": a}, exc=e)
                         finally:
                             sg.resid = None
+                if err is None and c.xfer == "alloc" and "alloc" in c.fields and not isinstance(cmd2.datain, Huge):
+                    # the two-step fetch: the caller writes another ALLOCATION LENGTH into the command's CDB in place, gives the
+                    # command a data-in buffer of that size and hands it over again: what the binding gets agrees with itself
+                    from vmon import refcodec as _R
+
+                    byte, msb, width = c.fields["alloc"]
+                    new_len = rng.choice([4, 8, 36, 64, 252, 255, 512, 1000]) & ((1 << width) - 1)
+                    if new_len != len(cmd2.datain):
+                        import sys as _sys3
+
+                        _sys3.modules["sgio" if tname == "sgio" else "iscsi"].handler = None
+                        try:
+                            del log[:]
+                            _R.put(cmd2.cdb, byte, msb, width, 0)
+                            _R.put(cmd2.cdb, byte, msb, width, new_len)
+                            cmd2.datain = bytearray(new_len)
+                            dev.execute(cmd2)
+                            ctx.count("adjusted_commands_handed_over_again")
+                            if log:
+                                check_buffers(ctx, c, setname, tname + ".after_in_place_adjustment", full, log[0]["cdb"], log[0]["in"], log[0]["out"], by_cdb_only=True)
+                                if _R.get(log[0]["cdb"], byte, msb, width) != new_len:
+                                    ctx.fail("C03:%s.in_place_adjustment_lost" % c.name, "ALLOCATION LENGTH %d written into cmd.cdb in place; the binding received a CDB announcing %d"
+                                             % (new_len, _R.get(log[0]["cdb"], byte, msb, width)), {"cmd": c.name, "args": a, "transport": tname})
+                        except Exception as e:  # noqa: BLE001
+                            ctx.fail("C03:%s.re_execution_raises.%s" % (c.name, type(e).__name__), "handing the adjusted command over again raised %s" % e,
+                                     {"cmd": c.name, "args": a}, exc=e)
                 if tname == "iscsi" and isinstance(ev["in"], BYTESLIKE) and isinstance(ev["out"], BYTESLIKE):
                     li, lo = len(ev["in"]), len(ev["out"])
                     want = (2, lo) if lo else ((1, li) if li else (0, 0))
